@@ -57,7 +57,17 @@ def ensure_hashseed(modname):
         os.execve(sys.executable, [sys.executable, "-m", modname] + sys.argv[1:], env)
 
 
+_KNOWN_CACHE = {}
+
+
 def load_known(prop):
+    if prop in _KNOWN_CACHE:
+        return _KNOWN_CACHE[prop]
+    _KNOWN_CACHE[prop] = res = _load_known(prop)
+    return res
+
+
+def _load_known(prop):
     path = os.path.join(VERIF, "known_findings.json")
     if not os.path.exists(path):
         return []
@@ -155,8 +165,10 @@ def _fails(check, scenario, seed, clause, overrides=None):
         out = check.execute(scenario, seed, overrides)
     except Exception:
         return None
+    known = load_known(check.PROPERTY) if getattr(check, "PROPERTY", None) else []
     for v in out.violations:
-        if v.clause == clause:
+        # (a listed finding of the same clause is another violation: minimisation must not slide into it)
+        if v.clause == clause and match_known(v, known) is None:
             return out, v
     return None
 
